@@ -85,16 +85,16 @@ fn warm() {
     let master = std::path::Path::new(engine::WORK).join("home-master");
     let _ = std::fs::remove_dir_all(&master);
     let _ = std::fs::create_dir_all(&master);
-    let _ = std::process::Command::new("cp").arg("-r").arg(lane.home().join(".pavex")).arg(master.join(".pavex")).status();
+    let _ = std::process::Command::new("cp").arg("-a").arg(lane.home().join(".pavex")).arg(master.join(".pavex")).status();
 }
 
 /// Make sure lane `name` exists, cloning the seed lane (compiled dependencies, doc cache).
 fn lane(name: &str) -> engine::Lane {
-    let dir = std::path::Path::new(engine::WORK).join("lanes").join(name);
+    let dir = engine::lanes_dir().join(name);
     let seed = std::path::Path::new(engine::WORK).join("lanes").join("seed");
     if !dir.exists() && seed.exists() {
         let _ = std::fs::create_dir_all(dir.parent().unwrap());
-        let _ = std::process::Command::new("cp").arg("-r").arg(&seed).arg(&dir).status();
+        let _ = std::process::Command::new("cp").arg("-a").arg(&seed).arg(&dir).status();
     }
     engine::Lane::new(name)
 }
@@ -287,6 +287,12 @@ fn shape_labels(spec: &AppSpec) -> Vec<&'static str> {
     if spec.types.iter().any(|t| t.view_of.is_some_and(|j| spec.types[j].clone_if_necessary == Some(true) && used(&|x, m| x == j && m == Mode::Move))) {
         v.push("shape:reference-held-to-a-value-that-is-also-moved(clone-if-necessary)");
     }
+    if spec.types.iter().any(|t| t.view_of.is_some_and(|j| spec.types[j].view_of.is_some())) {
+        v.push("shape:reference-holder-kept-by-value-inside-another-value");
+    }
+    if spec.types.iter().any(|t| t.life == Life::Singleton && t.inputs.iter().any(|(j, _)| spec.types[*j].life == Life::Transient)) {
+        v.push("shape:singleton-built-from-a-transient");
+    }
     if used(&|_, m| m == Mode::Mut) {
         v.push("shape:mutable-reference-injected");
     }
@@ -344,10 +350,13 @@ fn pipeline_family(mut chk: Check) -> ! {
                 .map(|k| {
                     // outside C02 (whose class does not mention them) a fifth of the request-scoped types may be
                     // injected as `&mut` into pre-/post-processing middlewares and handlers
-                    let ext = genr::Ext { mut_refs: prop != "C02" };
+                    let ext = genr::Ext { mut_refs: prop != "C02", startup_transients: prop != "C02" };
                     let spec = genr::build_abiding_ext(&strat.new_tree(&mut runner).unwrap().current(), ext).spec;
                     let mix = seed ^ ((r * 64 + k) as u64).wrapping_mul(0x9e3779b97f4a7c15);
-                    if k + 2 >= k_per_round {
+                    if k + 1 == k_per_round && r % 2 == 1 && prop != "C02" {
+                        // singletons built from shared transients (see genr::build_startup_stress)
+                        genr::build_startup_stress(mix)
+                    } else if k + 2 >= k_per_round {
                         // the last two applications of every round stress one pipeline stage (see genr::build_stage_stress)
                         genr::build_stage_stress(mix)
                     } else if k % 4 == 1 && matches!(prop.as_str(), "C01" | "C03" | "C04") {
@@ -371,6 +380,10 @@ fn pipeline_family(mut chk: Check) -> ! {
         let strat = genr::routing_genome(false);
         for _ in 0..extra {
             rounds.push((0..k_per_round).map(|k| genr::build_routing(&strat.new_tree(&mut runner).unwrap().current(), k)).collect());
+        }
+        // ... and applications whose fallible singleton constructors share a function name (names of generated items)
+        for r in 0..(if tier == Tier::Quick { 1 } else { 6 }) {
+            rounds.push((0..k_per_round).map(|k| genr::build_naming_stress(seed ^ ((r * 64 + k + 7) as u64).wrapping_mul(0x9e3779b97f4a7c15))).collect());
         }
     }
     let rounds = rounds;
@@ -891,6 +904,19 @@ fn evaluate_routing(chk: &mut Check, specs: &[AppSpec], out: &RoundOutcome, solo
         }
         let (_, probes) = routing_script(spec, k, solo);
         let mut sampled = 0;
+        {
+            let mut routeless_guarded = false;
+            spec.walk_regs(&mut |r, _| {
+                if let Reg::Nest { domain: Some(_), bp, .. } = r {
+                    if !bp.iter().any(|x| matches!(x, Reg::Comp { idx } if spec.comps[*idx].kind == CompKind::Handler)) {
+                        routeless_guarded = true;
+                    }
+                }
+            });
+            if routeless_guarded {
+                chk.ev.label("table:guarded-blueprint-without-a-route-of-its-own");
+            }
+        }
         for (i, (m, p, h)) in probes.iter().enumerate() {
             let Some(resp) = by_id.get(&(k, i)) else { continue };
             chk.ev.evaluations += 1;
@@ -1173,7 +1199,7 @@ fn chaos_of(base: &AppSpec, seed: u64) -> AppSpec {
             if !sites.is_empty() && !spec.types.is_empty() {
                 for _ in 0..(1 + next() % 3) {
                     let c = sites[next() % sites.len()];
-                    let g = ((next() % 3) as u8, next() % spec.types.len());
+                    let g = ((next() % 4) as u8, next() % spec.types.len());
                     if !spec.comps[c].gens.contains(&g) {
                         spec.comps[c].gens.push(g);
                     }
